@@ -91,3 +91,12 @@ Theorem C08_full_step_rk4_density_matrix :
   mherm n (prho s') /\ mtrace ROps n (prho s') = mtrace ROps n (prho s) /\ pact s' = pact s.
 Proof. exact step_eh_rk4_trace_herm. Qed.
 Print Assumptions C08_full_step_rk4_density_matrix.
+
+(* ... for any number of linear-rk4 Ehrenfest passes (Model/Traj.run_eh_rk4): the label is the initial one and the density
+   matrix stays Hermitian with the trace it started with *)
+Theorem C08_full_run_rk4 : forall n m dt maxdt start (ds : list (kdata (T:=R))) (s : tstate (T:=R)),
+  Forall (rk_ok n) ds -> mherm n (prho s) ->
+  let sf := run_eh_rk4 ROps n m dt maxdt start ds s in
+  mherm n (prho sf) /\ mtrace ROps n (prho sf) = mtrace ROps n (prho s) /\ pact sf = pact s.
+Proof. intros n m dt maxdt start ds s H1 H2. exact (run_eh_rk4_trace_herm n m dt maxdt start ds s H1 H2). Qed.
+Print Assumptions C08_full_run_rk4.
